@@ -1588,8 +1588,8 @@ def run(ctx):
     for _ in range(ctx.n(24, 240)):
         a, b = gen_doc(ctx.rng, stratum="exact"), gen_doc(ctx.rng, stratum="exact")
         a["pair_stems"] = b["pair_stems"] = ctx.rng.choice(PAIR_STEMS)
-        if ctx.rng.random() < 0.15:
-            b = dict(a)  # the same content under the other stem: same digest, same code
+        if ctx.rng.random() < 0.25:
+            b = dict(a)  # the same content under the other stem / the same stem in another directory: same digest, same code
         pairs.append((a, b))
     Ma = lean_docs(ctx, [a for a, _ in pairs])
     Mb = lean_docs(ctx, [b for _, b in pairs])
@@ -1602,9 +1602,14 @@ def run(ctx):
             ctx.violation(case, R, "reading two documents in one session failed")
             continue
         Sa, Sb = spec_numbers(a), spec_numbers(b)
-        S = {"a": Sa, "b": Sb, "a_again": Sa, "a_source_ok": True, "b_source_ok": True}
+        # digest naming (C17_session_digest_naming): stems that normalise alike share a module exactly when the content is the same
+        same = a["doc"] == b["doc"]
+        sub = ("same content, " if same else "different content, ") + ("same stem" if a["pair_stems"][0] == a["pair_stems"][1] else "stems normalise alike")
+        ctx.hist[f"pair: {sub}"] = ctx.hist.get(f"pair: {sub}", 0) + 1
+        S = {"a": Sa, "b": Sb, "a_again": Sa, "a_source_ok": True, "b_source_ok": True, "same_module": same}
         Rv = {"a": snap(R["a"], Sa), "b": snap(R["b"], Sb), "a_again": snap(R["a_again"], Sa),
-              "a_source_ok": R["a_source_ok"], "b_source_ok": R["b_source_ok"]}
+              "a_source_ok": R["a_source_ok"], "b_source_ok": R["b_source_ok"],
+              "same_module": R["modules"][0] == R["modules"][1]}
         # the Lean session model (Model/C17Session.lean) on what was observed: module names, and whether A's file is intact
         Mv = None
         if ctx.driver_ok:
@@ -1614,7 +1619,8 @@ def run(ctx):
             if ms["intact"][0][0] != R["a_file_intact"]:
                 ctx.add_drift(case, R["a_file_intact"], ms["intact"][0], "the file of the first model after the second read: session model differs")
             Mv = dict(Rv, a_source_ok=Rv["a_source_ok"] if ms["intact"][0][0] else False,
-                      b_source_ok=Rv["b_source_ok"] if ms["intact"][1][0] else False)
+                      b_source_ok=Rv["b_source_ok"] if ms["intact"][1][0] else False,
+                      same_module=ms["handles"][0] == ms["handles"][1])
         ctx.judge(case, Rv, S, Mv, what="a second document read in the same session interferes with the first model")
     check_stems(ctx)
     check_free_name(ctx)
